@@ -135,6 +135,21 @@ PROPS = {
         assumptions=["refill over real 10-minute intervals is validated only at the library level with synthetic time",
                      "window = any interval shorter than the limiter interval"],
     ),
+    "C13": dict(
+        modules=["HT.Props.C13"],
+        streams=["c13ja3"],
+        rule="ClientHello messages from a structural generator (legacy versions SSL3..TLS1.2, 1..40 suites incl. GREASE, "
+             "near-GREASE and SCSV values, 0..20 extensions incl. unknown, duplicated, GREASE-typed, empty bodies, "
+             "supported-groups with GREASE, 0..3 point formats, with/without SNI, malformed bodies of the three "
+             "extensions the fingerprint reads, record-layer fragmentation) encoded to bytes and fed to the real vendored "
+             "tls.Server (GetConfigForClient records JA3(), JA3Digest(), ServerName); the same structured hello through "
+             "the Lean model; four hellos through the real https service for the event fields; oracle = independent "
+             "JA3 reference + crypto/md5; non-trivial = accepted hello with extensions; distinct = distinct case line",
+        trusted=COMMON_TB + ["crypto/md5 (the digest function is a parameter of the theorems)",
+                             "modelled, not verified: TLS record layer and the fixed part of the hello (covered by the "
+                             "byte-level correspondence only)"],
+        assumptions=["at most one supported-groups and one point-formats extension (the specification is silent otherwise)"],
+    ),
 }
 
 HOOK_COMMITS = ["0596fc6", "c47bf54", "a8020ca"]
@@ -143,6 +158,17 @@ NOT_BUILT = "check not built yet in this round (design in DESIGN.md section 7); 
 NOT_APPLICABLE = {("C%02d" % i): NOT_BUILT for i in range(1, 21)}
 
 MANIFEST_TEXT = {
+    "C13": dict(
+        text="Lean theorems: for every well-formed hello the JA3 string computed from its wire-form extension list equals "
+             "the specification's (version, suites, extension types, curves, point formats in wire order, GREASE removed "
+             "from suites, extensions and curves), hence so does any digest of it; the specification's string is invariant "
+             "under removing all GREASE values; the recorded server name is the SNI sent. Includes decode/encode round "
+             "trips of the three extension bodies. Tied to the vendored TLS stack by byte-level differential runs.",
+        design_ref="DESIGN.md section 7, C13",
+        note="Trusted: Lean kernel; model HT.JA3; crypto/md5; harness encoder/reference. Record layer and fixed hello "
+             "fields are exercised by the correspondence only.",
+        technique="Lean 4 proof (fold over the extension list, body round trips) + differential correspondence",
+    ),
     "C10": dict(
         text="Lean theorems over an exact token-bucket model: per datagram replies <= granted Allow calls and each grant "
              "consumes one token; by induction over any time-ordered datagram history one source IP receives at most burst "
